@@ -41,8 +41,9 @@ def entry_obl(prefix, fn, e, tier_params=None, extra=None, extra_thorough=None, 
 QUICK_IDS = set(e.id for e in catalogue("quick"))
 
 
-def all_entries():
-    return catalogue("thorough")
+def all_entries(ber_only=False):
+    """Catalogue entries for per-entry obligations.  Entries whose values only BER/CER can carry (feature "ber_only") are left out unless asked for."""
+    return [e for e in catalogue("thorough") if ber_only or not e.has("ber_only")]
 
 
 def demote(obligations, entry_ids, prefixes=None):
